@@ -446,6 +446,51 @@ def invert (v : Vals) : Except Err Vals :=
   else pure { count := v.count, start := v.end_, end_ := v.start,
               c2c := v.c2c.map (fun c => 1 / c), total := v.total.map (fun T => 1 / T) }
 
+/-- what a raising `invert` leaves behind: the sizes are swapped first, then `1 / c2c`, then `1 / total` -/
+def invertLeft (v : Vals) : Vals :=
+  if v.c2c = some 0 then { v with start := v.end_, end_ := v.start }
+  else { v with start := v.end_, end_ := v.start, c2c := v.c2c.map (fun c => 1 / c) }
+
+/-! ### histories on one `Chop` object
+
+The state of a `Chop` object, as far as `calculate` is concerned, is its parameter record: `calculate` reads
+the five fields and overwrites `results`, it never reads `results`; `invert` rewrites the fields in place.
+So a history of calls on one object is a fold over the parameter record, and every `calculate` in it
+answers exactly as a fresh chop with the current parameters would. -/
+
+/-- plain attribute assignment `chop.<field> = x` (no `__post_init__`: nothing is clamped or defaulted) -/
+def Vals.assign (v : Vals) (q : Q) (x : Rat) : Vals :=
+  match q with
+  | .count => { v with count := some x.floor.toNat }
+  | .start => { v with start := some x }
+  | .end_ => { v with end_ := some x }
+  | .c2c => { v with c2c := some x }
+  | .total => { v with total := some x }
+
+inductive Step where
+  /-- `chop.calculate(L)`, with the solver answers observed in that call -/
+  | eval (t : Tol) (L : Rat) (o : Oracle)
+  /-- `chop.invert()` -/
+  | invert
+  /-- `chop.<field> = x` -/
+  | assign (q : Q) (x : Rat)
+  deriving Repr
+
+/-- the parameter record after the steps (an `invert` that raises leaves the half-inverted record `invertLeft`)
+    and the outcome of every step in order (`none` for a successful `invert`) -/
+def runHistory : Vals → List Step → Vals × List (Option (Except (Err × Option Rel) Vals))
+  | v, [] => (v, [])
+  | v, .eval t L o :: rest =>
+      let r := runHistory v rest
+      (r.1, some (calculate t L o v) :: r.2)
+  | v, .assign q x :: rest =>
+      let r := runHistory (v.assign q x) rest
+      (r.1, none :: r.2)
+  | v, .invert :: rest =>
+      match invert v with
+      | .ok w => let r := runHistory w rest; (r.1, none :: r.2)
+      | .error e => let r := runHistory (invertLeft v) rest; (r.1, some (.error (e, none)) :: r.2)
+
 /-! ### `Grading` -/
 
 /-- one division `[length_ratio, count, total_expansion]` -/
@@ -594,6 +639,83 @@ def handleAddChop (args : List String) : Option String :=
         | .error (e, rel) => some s!"err {e.show} at:{showOpt Rel.name rel}"
   | _ => none
 
+/-- two parameter records agree: same count, every ratio/size equal within `1e-15` relative
+    (the rounding of the float division `1 / x` in `Chop.invert`) -/
+def closeOpt (a b : Option Rat) : Bool :=
+  match a, b with
+  | none, none => true
+  | some x, some y => decide (absR (x - y) ≤ absR y / 1000000000000000)
+  | _, _ => false
+
+def closeVals (a b : Vals) : Bool :=
+  decide (a.count = b.count) && closeOpt a.start b.start && closeOpt a.end_ b.end_ && closeOpt a.c2c b.c2c &&
+    closeOpt a.total b.total
+
+/-- the fields of a chop as the implementation shows them (no `__post_init__`) -/
+def parseRecord (s : String) : Option Vals := do
+  let fs ← parseFields s
+  if fs.any (fun kv => (Q.ofString? kv.1).isNone) then none
+  let c ← optInt fs "count"
+  let c ← match c with
+    | none => some none
+    | some i => if 0 ≤ i then some (some i.toNat) else none
+  some { count := c, start := ← optRat fs "start_size", end_ := ← optRat fs "end_size",
+         c2c := ← optRat fs "c2c_expansion", total := ← optRat fs "total_expansion" }
+
+def showOutcome (p : List Rel × Nat × Bool) (r : Except (Err × Option Rel) Vals) : String :=
+  let tail := s!"plan:{showPlan p.1} rounds:{p.2.1}"
+  match r with
+  | .ok res => s!"ok {showVals res} {tail}"
+  | .error (e, rel) => s!"err {e.show} at:{showOpt Rel.name rel} {tail}"
+
+/-- One step of a history in the line protocol: `calc|L|oracle|tol` or `inv|<fields observed after invert>`.
+    For `inv` the model inverts the current record exactly, requires the observed record to agree with it
+    (within the rounding of `1/x`) and continues with the observed one, so that later branch decisions are taken
+    on the numbers the implementation really holds. -/
+def histStep (v : Vals) (step : String) : Option (Vals × String) :=
+  match step.splitOn "|" with
+  | ["calc", l, orc, tol] => do
+      let L ← parseRat? l
+      let o ← parseOracle orc
+      let t ← parseTol tol
+      let p ← plan v.known
+      match (runHistory v [.eval t L o]).2 with
+      | [some r] => some (v, showOutcome p r)
+      | _ => none
+  | ["set", key, val] => do
+      let q ← Q.ofString? key
+      let x ← parseRat? val
+      if q = .count ∧ ¬(x.den = 1 ∧ 1 ≤ x.num) then none
+      some ((runHistory v [.assign q x]).1, "ok " ++ showVals (runHistory v [.assign q x]).1)
+  | ["inv", obs] =>
+      match (runHistory v [.invert]).2.head? with
+      | some none => do
+          let w := (runHistory v [.invert]).1
+          let seen ← parseRecord obs
+          if closeVals w seen then some (seen, "ok " ++ showVals w) else some (w, "fail:invert-mismatch " ++ showVals w)
+      | some (some (.error (e, _))) => do
+          let w := (runHistory v [.invert]).1
+          let seen ← parseRecord obs
+          if closeVals w seen then some (seen, "err " ++ e.show) else some (w, "fail:invert-mismatch " ++ showVals w)
+      | _ => none
+  | _ => none
+
+def histLoop : Vals → List String → Option (List String)
+  | _, [] => some []
+  | v, st :: rest => do
+      let r ← histStep v st
+      let tl ← histLoop r.1 rest
+      some (r.2 :: tl)
+
+/-- `c03.hist chop step;step;…` → the answers of the steps joined by ` || ` -/
+def handleHist (args : List String) : Option String :=
+  match args with
+  | [chop, steps] => do
+      let v ← parseChop chop
+      let out ← histLoop v (steps.splitOn ";")
+      some (" || ".intercalate out)
+  | _ => none
+
 def parseRelName (s : String) : Option Rel :=
   match s.splitOn "<" with
   | [o, ins] =>
@@ -657,6 +779,7 @@ def handle (op : String) (args : List String) : Option String :=
   | "c03.addchop" => handleAddChop args
   | "c03.count" => handleCount args
   | "c03.rel" => handleRel args
+  | "c03.hist" => handleHist args
   | _ => none
 
 end CBV.C03
